@@ -630,6 +630,13 @@ func drive(id, tier string) int {
 		merged.Samples = merged.Samples[:3]
 	}
 
+	// probes killed by the hang protocol leave their scratch directory behind
+	if leftovers, _ := filepath.Glob(filepath.Join(tmpRoot(), id+"-single-*")); len(leftovers) > 0 {
+		for _, l := range leftovers {
+			os.RemoveAll(l)
+		}
+	}
+
 	// Optional driver-level phase
 	if p.Driver != nil {
 		dc := &DriverCtx{Prop: id, Tier: tier, Seed: seed, Exe: exe, Tmp: dir, Known: known, Counters: merged.Counters}
